@@ -3,6 +3,7 @@ package vc
 import (
 	"fmt"
 	"go/types"
+	"hash/fnv"
 	"os"
 	"sort"
 	"strings"
@@ -102,6 +103,8 @@ type Exec struct {
 	globalCache map[*ssa.Global]*T
 	heapSorts map[string]string
 	heapOrder []string
+	axioms    []string
+	side      []T // axiom instances produced while building terms; flushed into the path condition
 }
 
 type Options struct {
@@ -127,23 +130,29 @@ func (ex *Exec) TypeID(t types.Type) int {
 	return id
 }
 
-// Literals interns byte-string literals as (blit id).
+// Literals interns byte-string literals as (blit id); ids are content hashes so that they are
+// stable across runs and independent of the set of packages loaded.
 type Literals struct {
-	ids  map[string]int
+	ids  map[string]int64
 	strs []string
 }
 
 func NewLiterals() *Literals {
-	l := &Literals{ids: map[string]int{}}
+	l := &Literals{ids: map[string]int64{}}
 	l.ID("")
 	return l
 }
 
-func (l *Literals) ID(s string) int {
+func (l *Literals) ID(s string) int64 {
 	if id, ok := l.ids[s]; ok {
 		return id
 	}
-	id := len(l.strs)
+	var id int64
+	if s != "" {
+		h := fnv.New64a()
+		h.Write([]byte(s))
+		id = int64(h.Sum64()&((1<<52)-1)) + 1
+	}
 	l.ids[s] = id
 	l.strs = append(l.strs, s)
 	return id
@@ -154,8 +163,11 @@ func (l *Literals) Term(s string) T { return mk(SBytes, "(blit %d)", l.ID(s)) }
 // Axioms returns length facts for all interned literals.
 func (l *Literals) Axioms() string {
 	var sb strings.Builder
-	for i, s := range l.strs {
-		fmt.Fprintf(&sb, "(assert (= (blen (blit %d)) %d)) ; %q\n", i, len(s), truncate(s, 40))
+	for _, s := range l.strs {
+		if strings.HasPrefix(s, "store:") || strings.HasPrefix(s, "join:") {
+			continue
+		}
+		fmt.Fprintf(&sb, "(assert (= (blen (blit %d)) %d)) ; %q\n", l.ids[s], len(s), truncate(s, 40))
 	}
 	return sb.String()
 }
@@ -397,4 +409,22 @@ func (ex *Exec) LoadBindings(path string) {
 		}
 		ex.Bindings[q(parts[0])] = q(parts[1])
 	}
+}
+
+// Lookup returns the literal string of a (blit id) term.
+func (l *Literals) Lookup(t T) (string, bool) {
+	for s, id := range l.ids {
+		if t.S == fmt.Sprintf("(blit %d)", id) {
+			return s, true
+		}
+	}
+	return "", false
+}
+
+// FlushSide moves pending axiom instances into the path condition.
+func (st *PState) FlushSide() {
+	for _, f := range st.ex.side {
+		st.Assume(f)
+	}
+	st.ex.side = nil
 }
